@@ -188,7 +188,7 @@ class LatentQuantize(Module):
         """Converts a `code` which contains the number per latent to an index in the codebook."""
         assert zhat.shape[-1] == self.codebook_dim
         zhat = self._scale_and_shift(zhat)
-        return (zhat * self._basis).sum(dim=-1).to(int32)
+        return (zhat.round().to(int32) * self._basis).sum(dim=-1).to(int32)
 
     def indices_to_codes(self, indices: Tensor, project_out=True) -> Tensor:
         """Inverse of `codes_to_indices`."""
